@@ -167,6 +167,7 @@ func runC17(a *args) error {
 	}
 	if a.replay == "" {
 		c17ListSizes(r.fork(), st)
+		c17NoReplica(r.fork(), st)
 	}
 	var items []string
 	var kept []szCase
@@ -243,6 +244,28 @@ func c17ListSizes(r *rng, st *stats) {
 		if fmt.Sprint(got) != fmt.Sprint(want) {
 			st.ImplFailures = append(st.ImplFailures, implFailure{Case: -1, What: fmt.Sprintf("List with sizes reports %v, the datasets hold %v items", got, want), Key: "list-sizes-not-own-sum", Input: map[string]interface{}{"datasets": len(want)}})
 			return
+		}
+	}
+}
+
+// c17NoReplica: a partition that has lost its last replica (the catalogue lists no node for it) cannot be sized: the
+// call fails, it does not report the sum of the others.
+func c17NoReplica(r *rng, st *stats) {
+	c := newSimCluster([]uint64{1, 2})
+	defer c.close()
+	meta := newDatasetMeta(r, 2, pb.Space_Euclidean, [][]uint64{{1}, {2}, {}}, 1)
+	if err := c.createDataset(meta); err != nil {
+		st.count("no-replica:setup-failed")
+		return
+	}
+	id := uuid.FromBytesOrNil(meta.Id)
+	for _, asked := range []uint64{1, 2} {
+		ctx, cancel := context.WithTimeout(context.Background(), 2*time.Second)
+		l, b, err := c.nodes[asked].datasets[id].SizeInfo(ctx)
+		cancel()
+		st.count(fmt.Sprintf("no-replica:err=%v", err != nil))
+		if err == nil {
+			st.ImplFailures = append(st.ImplFailures, implFailure{Case: -1, What: fmt.Sprintf("a dataset with a partition that has no replica left: SizeInfo through node %d returned (%d, %d) with no error", asked, l, b), Key: "sizeinfo-partition-without-replica", Input: map[string]interface{}{"asked": asked}})
 		}
 	}
 }
